@@ -107,6 +107,42 @@ def specVerdict (v : Karp.Spec.Consolidation.Verdict) (allowed : Bool) (whyA : S
   | none => { allowed := some allowed, spec := some true, why := whyA }
   | some (sig, why) => { allowed := some allowed, spec := some false, why := why, extra := some (jObj [("signature", jStr sig)]) }
 
+/-- the command's replacement as `validateCommand` reads it: its requirements and the names of its options -/
+def replArg (repl : List ClaimJ) : Option (Reqs × List String) :=
+  match repl with
+  | c :: _ => some (c.reqs, c.its)
+  | [] => none
+
+/-- `c06.validate`, a command that reached validation and was REJECTED with class `cls`: does the model agree?
+    `pre` = that command (recomputed by the harness), `simO` / `simErr` = the harness's re-simulation of its candidates on the
+    changed cluster.
+    * `churn`      — validateCandidates: the candidates are no longer (all) candidates ⇔ the harness's candidate lookup says so
+    * `budget`     — validateCandidates' budget / nomination test: C05's subject, taken as given
+    * `scheduling` / `unknown` — validateCommand itself: the model's `validateCommand` must reject
+    * `unobserved` — the multi-node method publishes no rejection event: changed candidates explain the rejection,
+                     otherwise the model's `validateCommand` must reject -/
+def rejectedAgrees (_s : Scenario) (cls : String) (pre : Option Json) (simO : Option Sim) (simErr : Except String (Option String)) :
+    Except String (Bool × String) := do
+  let simErr := (← simErr).getD "missing"
+  if cls == "budget" then return (true, "") else
+  if cls == "churn" then
+    return (simErr == "candidates-changed",
+      if simErr == "candidates-changed" then "" else
+        "implementation: rejected because candidates are no longer valid; the harness finds every candidate of the command still eligible")
+  -- (the multi-node method does not report the class: a changed candidate set explains the rejection)
+  if simErr == "candidates-changed" && cls == "unobserved" then return (true, "")
+  if simErr == "candidates-changed" then
+    return (false, s!"implementation: rejected by validateCommand ({cls}); the harness finds that the command's candidates are no longer all eligible (class churn expected)")
+  match pre with
+  | none => return (true, "the rejected command could not be recomputed")
+  | some pj =>
+    let repl ← listF claimJ pj "repl"
+    match simO with
+    | none => return (true, "")   -- the re-simulation failed: the model has no simulation to accept
+    | some sim =>
+      let ok := Karp.Consolidate.validateCommand (replArg repl) sim
+      return (!ok, if ok then s!"model: validateCommand accepts the command on the re-simulation; implementation rejected it ({cls})" else "")
+
 /-- `c06.single` / `c06.multi` / `c06.empty`: one real `ComputeCommands` call -/
 def opRun (inp impl : Json) : Except String Resp := do
   if let some e := fldOpt impl "harness_error" then throw s!"harness error: {e.compress}"
@@ -122,8 +158,17 @@ def opRun (inp impl : Json) : Except String Resp := do
     return { allowed := some true, spec := some true, why := "ComputeCommands returned an error" }
   let passed ← listF asStr impl "passed"
   let simO ← match fldOpt impl "sim" with | some j => simOf s j | none => pure none
+  let verdict := (← strO impl "verdict").getD ""
+  let expect := (← strO inp "expect").getD ""
+  if expect != "" && expect != (if verdict == "" then "no-validation" else verdict) then
+    return { allowed := some false, spec := some true,
+             why := s!"validation was expected to end in '{expect}', the implementation's verdict is '{if verdict == "" then "no-validation" else verdict}'" }
   match fldOpt impl "cmd" with
   | none =>
+    if churned && verdict.startsWith "rejected:" then
+      -- a command reached validation and was rejected: the model must reject it, too, on the same re-simulation
+      let (ok, why) ← rejectedAgrees s ((verdict.drop 9).toString) (fldOpt impl "pre") simO (match fldOpt impl "sim" with | some j => (strO j "err") | none => pure none)
+      return { allowed := some ok, spec := some true, why := why }
     -- no command: nothing the property speaks about.  When exactly one candidate was evaluated on an unchanged
     -- cluster, the model must agree that it yields no command.
     let budget := (← intO inp "budget").getD 1
@@ -157,13 +202,13 @@ def opRun (inp impl : Json) : Except String Resp := do
           !Karp.Consolidate.isEmpty ((Karp.Spec.Consolidation.reschedulable infos n).map (fun p => let i := Karp.Spec.Consolidation.infoOf infos p.name; { delCost := i.delCost, prio := i.prio })))
         pure (match bad with | some n => (false, s!"model: node {n.name} is not empty") | none => (decision == "delete", "an Emptiness command must be a delete"))
       else if churned then
-        -- the cluster changed during the wait: the released command must pass the model's `validateCommand` on the
-        -- re-simulation of the changed cluster
+        -- the cluster changed during the wait: the released command must pass the model's `validateCommand` (instance-type
+        -- names AND replacement requirements) on the re-simulation of the changed cluster; the converse — a rejected
+        -- command must be rejected by the model — is `rejectedAgrees`
         match simO with
         | none => pure (false, "model: the candidates are no longer valid after the change; implementation released the command")
         | some sim =>
-          let names := match repl with | c :: _ => some c.its | [] => none
-          let ok := Karp.Consolidate.validateCommand names sim
+          let ok := Karp.Consolidate.validateCommand (replArg repl) sim
           pure (ok, if ok then "" else "model: validateCommand rejects the command on the re-simulation; implementation released it")
       else match simO with
       | none => pure (true, "")
@@ -177,19 +222,6 @@ def opRun (inp impl : Json) : Except String Resp := do
         | none =>
           let dec := if method == "multi" then Karp.Consolidate.multiStep ridKey gate mc sim else Karp.Consolidate.compute ridKey gate mc sim
           pure (agrees dec sim.claims.head? (some (decision, repl)))
-    -- classify a violation at release: if the released command passes `validateCommand` and everything would be fine
-    -- had the replacement taken over the requirements of the re-simulated NodeClaim, the defect is exactly that
-    -- validation compares instance-type names only and releases the replacement with its stale requirements
-    let v := match v, simO with
-      | some ("feasible-at-release", w), some sim =>
-        match sim.claims, cmd.repl with
-        | [sc], [c] =>
-          let alt := { cmd with repl := [{ c with reqs := c.reqs.add (sc.reqs.map (·.2)) }] }
-          if churned && ok && (Karp.Spec.Consolidation.feasibleHome s ridKey infos alt cands (witnessOnly := false)).isNone then
-            some ("stale-replacement-requirements", w)
-          else v
-        | _, _ => v
-      | _, _ => v
     pure (specVerdict v ok why)
 
 /-- `c06.compute`: `computeConsolidation` (before validation) on an arbitrary candidate subset, then
